@@ -769,5 +769,89 @@ mod misc {
         if got != all { notes.push(format!("{head}: drops do not match: dropped {got:?}, expected exactly {all:?} once each")); }
         notes
     }
+
+    // ------------------------------------------------------------------------------------------
+    // C16, last clause: "each part is afterwards independent: growing, shrinking, dropping, boxing or
+    // deallocating one part never changes the contents of another" - on arenas of both directions
+    // and several minimum alignments, with byte-sized elements so that split points fall between
+    // multiples of the minimum alignment, the split buffer being the newest allocation or not.
+    pub fn independence_probe(r: &mut Rng) -> Vec<String> {
+        use bump_scope::settings::BumpSettings;
+        use bump_scope::alloc::Global;
+        let mut notes: Vec<String> = vec![];
+        let n = r.range(1, 24) as usize;
+        let extra = r.below(6) as usize;
+        let a = r.below(n as u64 + 1) as usize;
+        let b = a + r.below((n - a) as u64 + 1) as usize;
+        let shape = r.below(3);                 // 0 BumpVec::split_off(a..b), 1 BumpBox<[u8]>::split_at(a), 2 BumpString::split_off(a..b)
+        let newest = r.coin(2, 3);              // is the split buffer the most recent allocation?
+        let script: Vec<(u64, usize)> = (0..r.range(1, 6)).map(|_| (r.below(8), r.range(1, 20) as usize)).collect();
+        let data: Vec<u8> = (0..n).map(|i| b'a' + (i % 26) as u8).collect();
+        macro_rules! with {
+            ($ma:literal, $up:literal) => {{
+                type B = Bump<Global, BumpSettings<$ma, $up>>;
+                let head = format!("parts: independence: shape={shape} n={n} extra={extra} range={a}..{b} newest={} script={script:?} MIN_ALIGN={} UP={}", newest as u8, $ma, $up);
+                let bump: B = Bump::with_size(512);
+                let before_it = bump.alloc_slice_fill(3, 0x11u8).as_ptr() as usize;
+                let check_guard = |notes: &mut Vec<String>, when: &str| { if unsafe { core::slice::from_raw_parts(before_it as *const u8, 3) } != [0x11u8; 3] { notes.push(format!("{head}: an older allocation changed {when}")); } };
+                match shape {
+                    0 | 2 => {
+                        // two vectors over one buffer (a string's split_off is the vector's on its bytes)
+                        let mut v: BumpVec<u8, &B> = BumpVec::with_capacity_in(n + extra, &bump);
+                        v.extend_from_slice_copy(&data);
+                        if !newest { bump.alloc(0x22u8); }
+                        let (mut keep, mut off): (Option<BumpVec<u8, &B>>, Option<BumpVec<u8, &B>>) = if shape == 0 {
+                            let o = v.split_off(a..b); (Some(v), Some(o))
+                        } else {
+                            let mut s = unsafe { bump_scope::BumpString::from_utf8_unchecked(v) };
+                            let o = s.split_off(a..b);
+                            (Some(s.into_bytes()), Some(o.into_bytes()))
+                        };
+                        let mut want_keep: Vec<u8> = data[..a].iter().chain(data[b..].iter()).copied().collect();
+                        let mut want_off: Vec<u8> = data[a..b].to_vec();
+                        let mut trace = String::new();
+                        for (op, m) in &script {
+                            match op {
+                                0 => { if keep.is_some() && off.is_some() { keep = None; trace.push_str(" drop(rest)"); } }
+                                1 => { if keep.is_some() && off.is_some() { off = None; trace.push_str(" drop(split-off)"); } }
+                                2 => { let f = bump.alloc_slice_fill(*m, 0xEEu8); if f.iter().any(|x| *x != 0xEE) { notes.push(format!("{head}: a fresh allocation reads back wrong after{trace}")); } trace.push_str(&format!(" alloc({m})")); }
+                                3 => { if let Some(k) = keep.as_mut() { for j in 0..*m { k.push(b'0' + (j % 10) as u8); want_keep.push(b'0' + (j % 10) as u8); } trace.push_str(&format!(" rest.push*{m}")); } }
+                                4 => { if let Some(o) = off.as_mut() { for j in 0..*m { o.push(b'A' + (j % 26) as u8); want_off.push(b'A' + (j % 26) as u8); } trace.push_str(&format!(" split-off.push*{m}")); } }
+                                5 => { if let Some(k) = keep.as_mut() { k.shrink_to_fit(); trace.push_str(" rest.shrink_to_fit"); } }
+                                6 => { if let Some(o) = off.as_mut() { o.shrink_to_fit(); trace.push_str(" split-off.shrink_to_fit"); } }
+                                _ => { if let Some(o) = off.take() { let bx = o.into_boxed_slice(); if &*bx != want_off.as_slice() { notes.push(format!("{head}: boxing the split-off part changed it after{trace}")); } core::mem::forget(bx); trace.push_str(" split-off.into_boxed_slice"); } }
+                            }
+                            if let Some(k) = &keep { if k.as_slice() != want_keep.as_slice() { notes.push(format!("{head}: the remaining part changed after{trace}: {:?} instead of {:?}", k.as_slice(), want_keep)); break; } }
+                            if let Some(o) = &off { if o.as_slice() != want_off.as_slice() { notes.push(format!("{head}: the split-off part changed after{trace}: {:?} instead of {:?}", o.as_slice(), want_off)); break; } }
+                            check_guard(&mut notes, &format!("after{trace}"));
+                        }
+                    }
+                    _ => {
+                        let bx: BumpBox<[u8]> = bump.alloc_slice_copy(&data);
+                        if !newest { bump.alloc(0x22u8); }
+                        let (l, rr) = bx.split_at(a);
+                        let (mut left, mut right) = (Some(l), Some(rr));
+                        let (want_l, want_r) = (data[..a].to_vec(), data[a..].to_vec());
+                        let mut trace = String::new();
+                        for (op, m) in &script {
+                            match op {
+                                0 | 3 => { if left.is_some() && right.is_some() { bump.dealloc(left.take().unwrap()); trace.push_str(" dealloc(left)"); } }
+                                1 | 4 => { if left.is_some() && right.is_some() { bump.dealloc(right.take().unwrap()); trace.push_str(" dealloc(right)"); } }
+                                5 => { if left.is_some() && right.is_some() { drop(left.take()); trace.push_str(" drop(left)"); } }
+                                _ => { let f = bump.alloc_slice_fill(*m, 0xEEu8); if f.iter().any(|x| *x != 0xEE) { notes.push(format!("{head}: a fresh allocation reads back wrong after{trace}")); } trace.push_str(&format!(" alloc({m})")); }
+                            }
+                            if let Some(x) = &left { if &**x != want_l.as_slice() { notes.push(format!("{head}: the left part changed after{trace}: {:?} instead of {:?}", &**x, want_l)); break; } }
+                            if let Some(x) = &right { if &**x != want_r.as_slice() { notes.push(format!("{head}: the right part changed after{trace}: {:?} instead of {:?}", &**x, want_r)); break; } }
+                            check_guard(&mut notes, &format!("after{trace}"));
+                        }
+                    }
+                }
+            }};
+        }
+        match r.below(6) {
+            0 => with!(1, true), 1 => with!(8, true), 2 => with!(4, false), 3 => with!(8, false), 4 => with!(16, false), _ => with!(1, false),
+        }
+        notes
+    }
 }
-use misc::{misc_probe, producers_probe, traits_probe, flatten_probe, wrappers_probe, sources_probe};
+use misc::{misc_probe, producers_probe, traits_probe, flatten_probe, wrappers_probe, sources_probe, independence_probe};
